@@ -21,6 +21,9 @@ CHECKS["C18"] = dict(engine="symx", technique="symbolic execution (symx/z3) of t
 CHECKS["C15"] = dict(engine="symx", technique="symbolic execution (symx/z3) of the real model/endpoint/client renderers on a spec object carrying one symbolic text, followed by a reference model of Python's lexical rules executed on the symbolic output; lexer validated against CPython every run",
    text="For 30 text-bearing sites (descriptions, enum values, wire keys, defaults, discriminator names/values, parameter/header names, tags, media types, title/version) and every text up to 2 (quick) / 3-4 (thorough) characters over a 21-character hostile alphabet (quotes, backslash, LF, CR, TAB, #, braces, escape letters, NUL, FF, U+2028, non-ASCII, astral), z3 decides every path of the real rendering code and of the reference lexer: each rendered fragment lexes, has the token skeleton of the benign rendering, and meaning-carrying literals evaluate to the original text.",
    note="Trusts z3, the symx instrumentation (every path witness re-rendered by the uninstrumented code and compared), and lib/pylex.py, which is compared with CPython (ast.parse, AST shape, constants) on every text up to 2/3 characters at every site each run. Black is stubbed to the identity; texts long enough to wrap are outside the claim; other texts of the object are benign.", ref="§2 C15")
+CHECKS["C07"] = dict(engine="symx", technique="symbolic execution (symx/z3) of the real parse_operations, operationId de-duplication, EndpointsEmitter.emit grouping and ClientVisitor tag tuples; operationIds, path strings, tags and the status key are symbolic",
+   text="For documents of 2-3 operations: operationIds / path strings up to 2 (quick) / 3 (thorough) symbolic characters under all three naming strategies, tags up to 2 / 3-4 symbolic characters over 'aAbB1-_ .é中' in four tag-assignment shapes, and the response key as int or str for every status 100..599 - z3 decides every path: operations out == operations in, method names valid and distinct, no two tag groups write the same module, every (operation, tag) pair is served by a written client, APIClient derives exactly the written (class, module) pairs.",
+   note="Trusts z3 and the symx instrumentation (every path witness re-run on the uninstrumented code). Rendering, file I/O and pathlib are recording stubs; a raised exception counts as visible failure. More than 3 operations, longer names and YAML parsing itself are outside the claim.", ref="§2 C07")
 NA = {
  "C01": "not applicable to solver-based checking: the observation is compile()/import of a whole emitted file tree for a whole symbolic document; no kernel small enough to encode (identifier and lexical kernels are decided under C20/C15)",
  "C09": "not applicable: quantifies over hash seeds, processes, clocks and existing file trees; the deciding observation is byte equality of directory trees - nothing for a solver to decide",
